@@ -12,6 +12,20 @@ def teal_type(pt, t):
     return {"U": pt.TealType.uint64, "B": pt.TealType.bytes, "N": pt.TealType.none, "A": pt.TealType.anytype}[t]
 
 
+class AbiVar:
+    """An ABI value used as a plain variable: abi.Uint64 for 'U', abi.String for 'B' (scratch-backed in the main routine,
+    a frame cell inside routines compiled with frame pointers)."""
+
+    def __init__(self, pt, t):
+        self.v = pt.abi.Uint64() if t == "U" else pt.abi.String()
+
+    def load(self):
+        return self.v.get()
+
+    def store(self, e):
+        return self.v.set(e)
+
+
 class Scope:
     def __init__(self, params=None, locals_=None, routine=None):
         self.params = params or {}
@@ -30,6 +44,8 @@ class Builder:
         for name, d in recipe.get("vars", {}).items():
             if d.get("kind") == "dyn":
                 self.dvars[name] = pt.DynamicScratchVar(teal_type(pt, d["t"]))
+            elif d.get("kind") == "abi":
+                self.vars[name] = AbiVar(pt, d["t"])
             elif d.get("slot") is not None:
                 self.vars[name] = pt.ScratchVar(teal_type(pt, d["t"]), d["slot"])
             else:
@@ -48,7 +64,9 @@ class Builder:
         def impl(**kw):
             locs = {}
             for name, d in r.get("locals", {}).items():
-                if d.get("slot") is not None:
+                if d.get("kind") == "abi":
+                    locs[name] = AbiVar(pt, d["t"])
+                elif d.get("slot") is not None:
                     locs[name] = pt.ScratchVar(teal_type(pt, d["t"]), d["slot"])
                 else:
                     locs[name] = pt.ScratchVar(teal_type(pt, d["t"]))
